@@ -1,6 +1,7 @@
 import IrVerif.Drive.Util
 import IrVerif.Drive.Passes
 import IrVerif.Model.Inline
+import IrVerif.Model.AddDefaults
 /-! Protocol handler for the function-call models (C05): InlinePass, RemoveUnusedFunctionsPass,
 RemoveUnusedOpsetsPass.
 `{"m":"inline.run","model":<fmodel>,"crit":null|[[domain,type,overload]...]}` →
@@ -9,6 +10,9 @@ RemoveUnusedOpsetsPass.
     does not supply a function input that the function returns; the model answers with the unchanged model)
 `{"m":"inline.ruf","model":<fmodel>}` → `{"model":<fmodel>,"closed":bool,"used":[[..]]}`
 `{"m":"inline.ruo","model":<fmodel>,"pf":bool}` → `{"model":<fmodel>}`
+`{"m":"inline.defaults","model":<fmodel>,"imports":[[domain,version]],"nver":[[[out ids],version]],
+  "table":[[[domain,type,version], null | [[name,required,attr|null]]]]}` →
+  `{"model":<fmodel>,"modified":bool,"calls_untouched":bool,"touched":n,"nodes":n,"with_schema":n,"valid":bool}`
 Encoding: fmodel `{"g":graph,"f":[func],"d":[domain]}`; func `{"id":[domain,type,overload],
 "p":[[name,attr|null]],"i":[id],"o":[id],"n":[node],"d":[domain]}`; graph and node as in Drive/Passes.lean
 with one more attribute kind `{"k":"ref","v":<parameter name>}`. -/
@@ -114,7 +118,7 @@ def handle : Handler := fun m j =>
         pure (fun op => l.contains op)
     let run := inlineRun crit model
     let out := inlineModel crit model
-    return obj [("model", fmodelJ out), ("stuck", toJson run.st.stuck), ("dangling", toJson (!noDangling model.funcs run)),
+    return obj [("model", fmodelJ out), ("stuck", toJson run.st.stuck), ("canon_depth", toJson (depthOK out.funcs.length out.funcs && decide (out.funcs.length ≤ model.funcs.length))), ("dangling", toJson (!noDangling model.funcs run)),
       ("accepted_left", toJson (!noAccepted model.funcs crit run)), ("raised", toJson run.st.raised),
       ("syn_bad", toJson (synOK model.funcs model.funcs && !synOK model.funcs run.tbl)),
       ("depth_bad", toJson (depthOK model.funcs.length model.funcs && !depthOK model.funcs.length run.model.funcs)), ("valid", toJson (validF model)), ("flat", toJson (flatFuncs model)), ("pure_main", toJson (pureMain model)),
@@ -130,6 +134,52 @@ def handle : Handler := fun m j =>
     let model ← getFModel (← j.getObjVal? "model")
     let pf ← getBool j "pf"
     return obj [("model", fmodelJ (ruoModel pf model))]
+  | "inline.defaults" => some do
+    -- AddDefaultAttributesPass: `table` = [[domain, type, version], null | [[name, required, attr | null], ...]],
+    -- `imports` = [[domain, version]] of the main graph, `nver` = [[output ids of the node], node.version]
+    let model ← getFModel (← j.getObjVal? "model")
+    let imports ← (← getArr j "imports").mapM (fun e => do
+      let a ← e.getArr?
+      if h : a.size = 2 then return ((← a[0].getStr?), (← a[1].getNat?)) else throw "import pair")
+    let nverL ← (← getArr j "nver").mapM (fun e => do
+      let a ← e.getArr?
+      if h : a.size = 2 then
+        let outs ← (← a[0].getArr?).toList.mapM (fun x => x.getNat?)
+        return (outs, (← a[1].getNat?))
+      else throw "nver pair")
+    let table ← (← getArr j "table").mapM (fun e => do
+      let a ← e.getArr?
+      if h : a.size = 2 then
+        let key ← a[0].getArr?
+        if hk : key.size = 3 then
+          let entry ← match a[1] with
+            | .null => pure none
+            | x => do
+              let l ← (← x.getArr?).toList.mapM (fun sa => do
+                let t ← sa.getArr?
+                if ht : t.size = 3 then
+                  let d ← match t[2] with
+                    | .null => pure none
+                    | y => do pure (some (← IrVerif.Drive.Passes.getAttr y))
+                  return (⟨← t[0].getStr?, ← t[1].getBool?, d⟩ : SchemaAttr)
+                else throw "schema attribute")
+              pure (some l)
+          return (((← key[0].getStr?), (← key[1].getStr?), (← key[2].getNat?)), entry)
+        else throw "table key"
+      else throw "table entry")
+    let T : SchemaTable := fun d t v => (table.lookup (d, t, v)).join
+    let nver : FNode → Option Nat := fun n => nverL.lookup n.outs
+    let S := nodeSchema T imports nver
+    let out := addDefaultsModel T imports nver model
+    return obj [("model", fmodelJ out), ("modified", toJson (addDefaultsModified S model)),
+      ("calls_untouched", toJson (callsUntouched S model)),
+      ("touched", toJson (countNodesG (touched S) model.graph +
+        (model.funcs.map (fun f => countNodesNodes (touched S) f.nodes)).sum)),
+      ("nodes", toJson (countNodesG (fun _ => true) model.graph +
+        (model.funcs.map (fun f => countNodesNodes (fun _ => true) f.nodes)).sum)),
+      ("with_schema", toJson (countNodesG (fun n => !(S n).isEmpty) model.graph +
+        (model.funcs.map (fun f => countNodesNodes (fun n => !(S n).isEmpty) f.nodes)).sum)),
+      ("valid", toJson (validF model))]
   | _ => none
 
 end IrVerif.Drive.Inline
